@@ -86,7 +86,7 @@ template <class C> struct Runner {
     }
 };
 void run(Ctx &ctx) {
-    Local lc; int n = ctx.secondary ? 2 : ctx.quick() ? 4 : 5;
+    Local lc; int n = (ctx.secondary ? 2 : ctx.quick() ? 4 : 5) + ctx.bonus;
     std::vector<Str> bases = resolve_bases(false), refs = resolve_refs(n, false);
     Runner<char> ra(&ctx, &lc); Runner<wchar_t> rw(&ctx, &lc); ra.setup(bases); rw.setup(bases);
     for (size_t i = 0; i < refs.size(); i++) { if (!ctx.mine(i)) continue; if (ctx.expired()) break; ra.run_ref(refs[i]); if (n <= 4 || i % 1 == 0) rw.run_ref(refs[i]); }
